@@ -553,7 +553,12 @@ fn bus_part(cfg: &Cfg) -> Report {
             3 => 3,
             _ => 0,
         };
-        ScenarioOpts { weights: w.clone(), contract_weights: w, schedule, tight_gas: 60, ..Default::default() }
+        // contracts: the whole storage instruction set on values of every length (legacy
+        // 32-byte instructions on longer and shorter slots, reserved result registers, ...)
+        let mut cw = w.clone();
+        cw.storage = 14;
+        cw.storage_rich = 500;
+        ScenarioOpts { weights: w.clone(), contract_weights: cw, schedule, tight_gas: 60, ..Default::default() }
     };
     let mons = |sc: &Scenario| -> Vec<Box<dyn StepMonitor>> {
         vec![Box::new(GasProgress { default_schedule: sc.info["schedule"].as_u64() == Some(0), gas_limit: sc.spec.gas_limit, steps: 0 })]
